@@ -225,6 +225,8 @@ def build(tier):
     groups += kernels.bkldlt_groups(tier, report)
     from props import bk2x2
     groups += bk2x2.lemmas(report)
+    from props import guards
+    groups += guards.groups(PROP, report)
     meta = {"level": "proof", "trusted_base": ["cbmc 6.11.0 dfcc", "cadical", "extractor"],
             "assumptions": ["permutate_mat's contract stubbed in bk.compute (incl. its precondition: position k still holds the identity record) is PROVED for every n on the packed-cursor model "
                             "(bkldlt.pivoting.unbounded: pointers into the packed storage are (column, offset) pairs, values not modelled) and re-checked with real pointer arithmetic at concrete n (bkldlt.kernels.*, BOUNDED); "
